@@ -90,10 +90,13 @@ impl RowSpec {
         p.last_type_code = self.last_tc;
         p.adsb_version = self.version;
         p.surveillance_status = self.ss;
-        p.position_timestamp = self.pos_age.map(|a| now - chrono::Duration::seconds(a));
-        p.track_timestamp = self.trk_age.map(|a| now - chrono::Duration::seconds(a));
-        p.heading_timestamp = self.hdg_age.map(|a| now - chrono::Duration::seconds(a));
-        p.timestamp = now;
+        // ages end in 9.4 s / 0.6 s: whole-second truncation of the true age gives the digit below, while
+        // 'floor(now) - floor(then)' would often give the next one
+        let ms = chrono::Duration::milliseconds(400);
+        p.position_timestamp = self.pos_age.map(|a| now - chrono::Duration::seconds(a) - ms);
+        p.track_timestamp = self.trk_age.map(|a| now - chrono::Duration::seconds(a) - ms);
+        p.heading_timestamp = self.hdg_age.map(|a| now - chrono::Duration::seconds(a) - ms);
+        p.timestamp = now - chrono::Duration::milliseconds(600);
         p
     }
 }
@@ -162,7 +165,7 @@ pub fn row_strategy(icao: impl Strategy<Value = u32> + 'static) -> BoxedStrategy
         opt(0u32..2048),
         opt(0u32..16),
     );
-    let p5 = (prop_oneof![Just(0u32), 1u32..22], prop_oneof![Just(0u32), 1u32..32], opt(0u32..8), proptest::sample::select(vec![' ', 'N', 'P', 'T', 'S']), opt((0i64..20).prop_map(|k| k * 10 + 3)), opt((0i64..20).prop_map(|k| k * 10 + 3)), opt((0i64..20).prop_map(|k| k * 10 + 3)));
+    let p5 = (prop_oneof![Just(0u32), 1u32..22], prop_oneof![Just(0u32), 1u32..32], opt(0u32..8), proptest::sample::select(vec![' ', 'N', 'P', 'T', 'S']), opt((0i64..20).prop_map(|k| k * 10 + 9)), opt((0i64..20).prop_map(|k| k * 10 + 9)), opt((0i64..20).prop_map(|k| k * 10 + 9)));
     (p1, p2, p3, p4, p5)
         .prop_map(|(a, b, c, d, e)| RowSpec {
             icao: a.0,
